@@ -20,7 +20,115 @@ Inductive record_line : bytes -> bytes -> Z -> N -> bytes -> bytes -> Prop :=
 
 Lemma first_line_no_inner_lf content :
   forall i, index_of lf content = Some i -> first_line content = firstn (S i) content.
-Admitted.
+Proof. intros i H. unfold first_line. rewrite H. reflexivity. Qed.
+
+(* ---- local auxiliaries (lists, lines, separators) ---- *)
+Lemma firstn_S_len (X : bytes) x tail : firstn (S (length X)) (X ++ x :: tail) = X ++ [x].
+Proof.
+  induction X as [|a X IH]; [reflexivity|].
+  change (a :: firstn (S (length X)) (X ++ x :: tail) = a :: (X ++ [x])).
+  now rewrite IH.
+Qed.
+
+Lemma skipn_S_len (X : bytes) x tail : skipn (S (length X)) (X ++ x :: tail) = tail.
+Proof.
+  induction X as [|a X IH]; [reflexivity|].
+  change (skipn (S (length X)) (X ++ x :: tail) = tail). exact IH.
+Qed.
+
+Lemma first_line_app X tail :
+  contains lf X = false -> first_line (X ++ lf :: tail) = X ++ [lf].
+Proof.
+  intros H. unfold first_line. rewrite (index_of_app_notin lf X tail H).
+  apply firstn_S_len.
+Qed.
+
+Lemma after_first_line_app X tail :
+  contains lf X = false -> after_first_line (X ++ lf :: tail) = tail.
+Proof.
+  intros H. unfold after_first_line. rewrite (index_of_app_notin lf X tail H).
+  apply skipn_S_len.
+Qed.
+
+Lemma first_line_nolf X : contains lf X = false -> first_line X = X.
+Proof. intros H. unfold first_line. now rewrite (index_of_none lf X H). Qed.
+
+Lemma nl_no_colon nl : forallb is_nl nl = true -> contains colon nl = false.
+Proof.
+  induction nl as [|a nl IH]; [reflexivity|].
+  cbn [forallb]. intros H. apply andb_true_iff in H as [Ha Hn].
+  rewrite contains_cons, (IH Hn), orb_false_r.
+  unfold is_nl in Ha. unfold colon. lia.
+Qed.
+
+Lemma colon_not_digit : is_digit colon = false. Proof. reflexivity. Qed.
+Lemma colon_not_minus : colon <> 45. Proof. discriminate. Qed.
+Lemma lf_not_digit : is_digit lf = false. Proof. reflexivity. Qed.
+Lemma lf_not_minus : lf <> 45. Proof. discriminate. Qed.
+
+Lemma fmt_of_no_colon h : contains colon (fmt_of h) = false.
+Proof. destruct h; vm_compute; reflexivity. Qed.
+Lemma fmt_of_no_lf h : contains lf (fmt_of h) = false.
+Proof. destruct h; vm_compute; reflexivity. Qed.
+
+Lemma splitN_line a b c d :
+  contains colon a = false -> contains colon b = false -> contains colon c = false ->
+  splitN colon 4 (a ++ colon :: b ++ colon :: c ++ colon :: d) = [a; b; c; d].
+Proof.
+  intros Ha Hb Hc.
+  rewrite (splitN_cons colon 2 a _ Ha).
+  rewrite (splitN_cons colon 1 b _ Hb).
+  rewrite (splitN_cons colon 0 c _ Hc).
+  now rewrite splitN_one.
+Qed.
+
+(* the header  alg:ts:pid:  contains no LF *)
+Lemma header_no_lf h ts pid rest :
+  contains lf rest = false ->
+  contains lf (fmt_of h ++ colon :: dec_Z ts ++ colon :: dec_N pid ++ colon :: rest) = false.
+Proof.
+  intros Hr.
+  rewrite contains_app, contains_cons, contains_app, contains_cons, contains_app, contains_cons.
+  rewrite fmt_of_no_lf, (dec_Z_no lf ts lf_not_digit lf_not_minus), (dec_N_no lf pid lf_not_digit), Hr.
+  reflexivity.
+Qed.
+
+Lemma parse_record_line content h ts pid hs :
+  (- (max_i64 + 1) <= ts <= max_i64)%Z -> pid <= max_u64 ->
+  first_line content = fmt_of h ++ colon :: dec_Z ts ++ colon :: dec_N pid ++ colon :: hs ->
+  parse_record content =
+  Some {| r_fmt := fmt_of h; r_ts := ts; r_pid := pid; r_hash := hs |}.
+Proof.
+  intros Hts Hpid Hl. unfold parse_record. rewrite Hl.
+  rewrite (splitN_line _ _ _ _ (fmt_of_no_colon h)
+             (dec_Z_no colon ts colon_not_digit colon_not_minus)
+             (dec_N_no colon pid colon_not_digit)).
+  rewrite (parse_int64_dec ts Hts), (parse_uint64_dec pid Hpid). reflexivity.
+Qed.
+
+Lemma decode_hash_enc_nl salt dig nl :
+  bytes_wf salt = true -> bytes_wf dig = true -> forallb is_nl nl = true ->
+  decode_hash (url_enc salt ++ colon :: url_enc dig ++ nl) = Some (salt, dig).
+Proof.
+  intros Hs Hd Hn. unfold decode_hash, url_enc, url_dec.
+  rewrite (split_all_cons colon _ _ (b64enc_no_colon UrlAlpha salt Hs)).
+  rewrite split_all_nosep.
+  2:{ rewrite contains_app.
+      rewrite (b64enc_no_colon UrlAlpha dig Hd : contains colon _ = false), (nl_no_colon nl Hn).
+      reflexivity. }
+  pose proof (b64dec_enc UrlAlpha salt [] Hs eq_refl) as E1. rewrite app_nil_r in E1.
+  rewrite E1, (b64dec_enc UrlAlpha dig nl Hd Hn). reflexivity.
+Qed.
+
+Lemma enc_pair_no_lf salt dig :
+  bytes_wf salt = true -> bytes_wf dig = true ->
+  contains lf (url_enc salt ++ [colon] ++ url_enc dig) = false.
+Proof.
+  intros Hs Hd. unfold url_enc.
+  rewrite contains_app, contains_app.
+  rewrite (b64enc_no_lf UrlAlpha salt Hs : contains lf _ = false).
+  rewrite (b64enc_no_lf UrlAlpha dig Hd : contains lf _ = false). reflexivity.
+Qed.
 
 Section WithKdf.
   Variable kdf : hasher -> bytes -> bytes -> option bytes.
@@ -36,7 +144,36 @@ Section WithKdf.
       url_dec s64 = Some salt /\ url_dec d64 = Some dig /\
       kdf h salt pw = Some dig /\
       upg = negb (default c =? pid).
-  Admitted.
+  Proof.
+    unfold auth_content. intros H.
+    destruct (parse_record content) as [r|] eqn:Hp; [|discriminate].
+    destruct (cfg_hasher c (r_pid r)) as [h|] eqn:Hc; [|discriminate].
+    destruct (beq (fmt_of h) (r_fmt r)) eqn:Hf; [|discriminate].
+    destruct (hash_check kdf h pw (r_hash r)) eqn:Hh; [|discriminate].
+    injection H as Hu Ht.
+    unfold parse_record in Hp.
+    destruct (splitN colon 4 (first_line content)) as [|f [|t [|i [|hs [|]]]]] eqn:Hs;
+      try discriminate.
+    destruct (parse_int64 t) as [ts'|] eqn:Hpt; try discriminate.
+    destruct (parse_uint64 i) as [pid|] eqn:Hpi; try discriminate.
+    injection Hp as Hr. subst r. cbn [r_fmt r_ts r_pid r_hash] in *. subst ts'.
+    unfold hash_check in Hh.
+    destruct (decode_hash hs) as [[s d]|] eqn:Hd; [|discriminate].
+    destruct (kdf h s pw) as [d'|] eqn:Hk; [|discriminate].
+    apply beq_eq in Hh. subst d'.
+    apply beq_eq in Hf.
+    unfold decode_hash in Hd.
+    destruct (split_all colon hs) as [|s64 [|d64 [|]]] eqn:Hsp; try discriminate.
+    destruct (url_dec s64) as [s'|] eqn:Hds; try discriminate.
+    destruct (url_dec d64) as [d'|] eqn:Hdd; try discriminate.
+    injection Hd as Hs' Hd'. subst s' d'.
+    apply splitN4_inv in Hs as (Hl & Hnf & Hnt & Hni).
+    apply split_all2_inv in Hsp as (Hhs & Hns & Hnd). subst hs.
+    exists f, pid, s64, d64, h, s, d.
+    split.
+    { rewrite Hl. now constructor. }
+    repeat split; auto.
+  Qed.
 
   (* no comparison of a digest prefix: a stored digest of another length
      than the recomputed one never authenticates *)
@@ -45,49 +182,118 @@ Section WithKdf.
     decode_hash (r_hash r) = Some (salt, dig) -> kdf h salt pw = Some d' ->
     length dig <> length d' ->
     auth_content kdf c content pw = AuthNo.
-  Admitted.
+  Proof.
+    intros Hp Hc Hd Hk Hlen. unfold auth_content. rewrite Hp, Hc.
+    destruct (beq (fmt_of h) (r_fmt r)); [|reflexivity].
+    unfold hash_check. rewrite Hd, Hk.
+    destruct (beq d' dig) eqn:E; [|reflexivity].
+    apply beq_eq in E. subst d'. now elim Hlen.
+  Qed.
 
   (* fewer than three ':' in the first line: never a success *)
   Theorem auth_content_needs_four_fields (c : config) (content pw : bytes) :
     (length (splitN colon 4 (first_line content)) < 4)%nat ->
     auth_content kdf c content pw = AuthNo.
-  Admitted.
+  Proof.
+    intros H. unfold auth_content, parse_record.
+    destruct (splitN colon 4 (first_line content)) as [|f [|t [|i [|hs [|]]]]];
+      try reflexivity.
+    - cbn [length] in H. lia.
+  Qed.
 
   (* ---------------------------------------------------------------- *)
   (* printer / parser round trip *)
 
   Lemma fmt_of_plain h : contains colon (fmt_of h) = false /\ contains lf (fmt_of h) = false.
-  Admitted.
+  Proof. split; [apply fmt_of_no_colon | apply fmt_of_no_lf]. Qed.
+
+  Lemma print_record_shape h ts pid hs tail :
+    print_record h ts pid hs ++ tail =
+    (fmt_of h ++ colon :: dec_Z ts ++ colon :: dec_N pid ++ colon :: hs) ++ lf :: tail.
+  Proof.
+    unfold print_record. cbn [app].
+    repeat (rewrite <- ?app_assoc; cbn [app]). reflexivity.
+  Qed.
 
   Lemma first_line_print h ts pid hs tail :
     contains lf hs = false ->
     first_line (print_record h ts pid hs ++ tail) = print_record h ts pid hs.
-  Admitted.
+  Proof.
+    intros Hh. rewrite print_record_shape.
+    rewrite (first_line_app _ _ (header_no_lf h ts pid hs Hh)).
+    rewrite <- (app_nil_r (print_record h ts pid hs)), print_record_shape.
+    reflexivity.
+  Qed.
 
   Lemma after_first_line_print h ts pid hs tail :
     contains lf hs = false ->
     after_first_line (print_record h ts pid hs ++ tail) = tail.
-  Admitted.
+  Proof.
+    intros Hh. rewrite print_record_shape.
+    apply after_first_line_app, header_no_lf, Hh.
+  Qed.
 
   Lemma parse_record_print h ts pid hs tail :
     (- (max_i64 + 1) <= ts <= max_i64)%Z -> pid <= max_u64 ->
     contains lf hs = false ->
     parse_record (print_record h ts pid hs ++ tail) =
     Some {| r_fmt := fmt_of h; r_ts := ts; r_pid := pid; r_hash := hs ++ [lf] |}.
-  Admitted.
+  Proof.
+    intros Hts Hpid Hh. apply parse_record_line; auto.
+    rewrite print_record_shape.
+    rewrite (first_line_app _ _ (header_no_lf h ts pid hs Hh)).
+    repeat (rewrite <- ?app_assoc; cbn [app]). reflexivity.
+  Qed.
 
   Lemma decode_hash_enc salt dig :
     bytes_wf salt = true -> bytes_wf dig = true ->
     decode_hash (url_enc salt ++ [colon] ++ url_enc dig ++ [lf]) = Some (salt, dig).
-  Admitted.
+  Proof.
+    intros Hs Hd. cbn [app]. apply decode_hash_enc_nl; auto.
+  Qed.
 
   Lemma hash_valid_enc salt dig :
     bytes_wf salt = true -> bytes_wf dig = true -> salt <> [] -> dig <> [] ->
     hash_valid (url_enc salt ++ [colon] ++ url_enc dig ++ [lf]) = true.
-  Admitted.
+  Proof.
+    intros Hs Hd Hns Hnd. unfold hash_valid. rewrite (decode_hash_enc salt dig Hs Hd).
+    destruct salt; [now elim Hns|]. destruct dig; [now elim Hnd|]. reflexivity.
+  Qed.
 
   Definition written (h : hasher) (ts : Z) (pid : N) (salt dig tail : bytes) : bytes :=
     print_record h ts pid (url_enc salt ++ [colon] ++ url_enc dig) ++ tail.
+
+  (* general form: the first line is a schema line followed by CR/LF only *)
+  Lemma auth_content_line c content h ts pid salt dig nl pw :
+    (- (max_i64 + 1) <= ts <= max_i64)%Z -> pid <= max_u64 ->
+    cfg_hasher c pid = Some h -> bytes_wf salt = true -> bytes_wf dig = true ->
+    forallb is_nl nl = true ->
+    first_line content = fmt_of h ++ colon :: dec_Z ts ++ colon :: dec_N pid ++ colon ::
+                         url_enc salt ++ colon :: url_enc dig ++ nl ->
+    auth_content kdf c content pw =
+    match kdf h salt pw with
+    | Some d' => if beq d' dig then AuthOk (negb (default c =? pid)) ts else AuthNo
+    | None => AuthNo
+    end.
+  Proof.
+    intros Hts Hpid Hc Hs Hd Hn Hl. unfold auth_content.
+    rewrite (parse_record_line content h ts pid _ Hts Hpid Hl).
+    cbn [r_fmt r_ts r_pid r_hash]. rewrite Hc, beq_refl.
+    unfold hash_check. rewrite (decode_hash_enc_nl salt dig nl Hs Hd Hn).
+    destruct (kdf h salt pw) as [d'|]; [|reflexivity].
+    destruct (beq d' dig); reflexivity.
+  Qed.
+
+  Lemma first_line_written h ts pid salt dig tail :
+    bytes_wf salt = true -> bytes_wf dig = true ->
+    first_line (written h ts pid salt dig tail) =
+    fmt_of h ++ colon :: dec_Z ts ++ colon :: dec_N pid ++ colon ::
+    url_enc salt ++ colon :: url_enc dig ++ [lf].
+  Proof.
+    intros Hs Hd. unfold written.
+    rewrite (first_line_print h ts pid _ tail (enc_pair_no_lf salt dig Hs Hd)).
+    unfold print_record. repeat (rewrite <- ?app_assoc; cbn [app]). reflexivity.
+  Qed.
 
   (* what Authenticate decides on a file the store itself wrote *)
   Lemma auth_content_written c h ts pid salt dig tail pw :
@@ -98,19 +304,32 @@ Section WithKdf.
     | Some d' => if beq d' dig then AuthOk (negb (default c =? pid)) ts else AuthNo
     | None => AuthNo
     end.
-  Admitted.
+  Proof.
+    intros Hts Hpid Hc Hs Hd.
+    apply (auth_content_line c _ h ts pid salt dig [lf] pw); auto.
+    apply first_line_written; auto.
+  Qed.
 
   Lemma is_supported_written c h ts pid salt dig tail :
     (- (max_i64 + 1) <= ts <= max_i64)%Z -> pid <= max_u64 ->
     cfg_hasher c pid = Some h -> bytes_wf salt = true -> bytes_wf dig = true ->
     salt <> [] -> dig <> [] ->
     format_supported_full c (written h ts pid salt dig tail) = SuppInfo true (fmt_of h) ts pid.
-  Admitted.
+  Proof.
+    intros Hts Hpid Hc Hs Hd Hns Hnd. unfold format_supported_full.
+    rewrite (parse_record_line _ h ts pid _ Hts Hpid (first_line_written h ts pid salt dig tail Hs Hd)).
+    cbn [r_fmt r_ts r_pid r_hash]. rewrite Hc, beq_refl.
+    pose proof (hash_valid_enc salt dig Hs Hd Hns Hnd) as E. cbn [app] in E.
+    rewrite E. reflexivity.
+  Qed.
 
   Lemma after_first_line_written h ts pid salt dig tail :
     bytes_wf salt = true -> bytes_wf dig = true ->
     after_first_line (written h ts pid salt dig tail) = tail.
-  Admitted.
+  Proof.
+    intros Hs Hd. unfold written.
+    apply after_first_line_print, enc_pair_no_lf; auto.
+  Qed.
 
   (* C02 "conversely": a record produced by an independent implementation of
      the schema (the grammar's own printer; any line end CRLF or LF; any tail)
@@ -123,5 +342,43 @@ Section WithKdf.
     auth_content kdf c (fmt_of h ++ colon :: dec_Z ts ++ colon :: dec_N pid ++ colon ::
                         url_enc salt ++ colon :: url_enc dig ++ eol ++ tail) pw
     = AuthOk (negb (default c =? pid)) ts.
-  Admitted.
+  Proof.
+    intros Hts Hpid Hc Hs Hk Hd Heol.
+    assert (Hpair : contains lf (url_enc salt ++ colon :: url_enc dig) = false)
+      by exact (enc_pair_no_lf salt dig Hs Hd).
+    assert (G : forall nl content,
+               forallb is_nl nl = true ->
+               first_line content = fmt_of h ++ colon :: dec_Z ts ++ colon :: dec_N pid ++ colon ::
+                                    url_enc salt ++ colon :: url_enc dig ++ nl ->
+               auth_content kdf c content pw = AuthOk (negb (default c =? pid)) ts).
+    { intros nl content Hn Hl.
+      rewrite (auth_content_line c content h ts pid salt dig nl pw Hts Hpid Hc Hs Hd Hn Hl).
+      rewrite Hk, beq_refl. reflexivity. }
+    destruct Heol as [-> | [-> | [-> ->]]].
+    - apply (G [lf]); [reflexivity|].
+      cbn [app].
+      replace (fmt_of h ++ colon :: dec_Z ts ++ colon :: dec_N pid ++ colon ::
+               url_enc salt ++ colon :: url_enc dig ++ lf :: tail)
+        with ((fmt_of h ++ colon :: dec_Z ts ++ colon :: dec_N pid ++ colon ::
+               url_enc salt ++ colon :: url_enc dig) ++ lf :: tail)
+        by (repeat (rewrite <- ?app_assoc; cbn [app]); reflexivity).
+      rewrite (first_line_app _ _ (header_no_lf h ts pid _ Hpair)).
+      repeat (rewrite <- ?app_assoc; cbn [app]). reflexivity.
+    - apply (G [13; lf]); [reflexivity|].
+      cbn [app].
+      match goal with |- first_line ?x = _ => replace x
+        with ((fmt_of h ++ colon :: dec_Z ts ++ colon :: dec_N pid ++ colon ::
+               url_enc salt ++ colon :: url_enc dig ++ [13]) ++ lf :: tail)
+        by (repeat (rewrite <- ?app_assoc; cbn [app]); reflexivity) end.
+      rewrite first_line_app.
+      + repeat (rewrite <- ?app_assoc; cbn [app]). reflexivity.
+      + apply header_no_lf.
+        match goal with |- contains lf ?x = false =>
+          replace x with ((url_enc salt ++ colon :: url_enc dig) ++ [13])
+            by (rewrite <- app_assoc; reflexivity) end.
+        rewrite contains_app. apply orb_false_iff. split; [exact Hpair | reflexivity].
+    - apply (G []); [reflexivity|].
+      cbn [app]. rewrite !app_nil_r.
+      apply first_line_nolf, header_no_lf, Hpair.
+  Qed.
 End WithKdf.
